@@ -1,60 +1,158 @@
-(* Model of free5gclib/milenage/milenage.go (the in-repo copy), transcribed loop by loop.
-   Go's block.Encrypt is the section variable E; buffers are octet lists of the lengths the Go code allocates. *)
-From Coq Require Import NArith ZArith List Lia Bool.
-Require Import Bytes.
+(* Model of free5gclib/milenage/milenage.go (the in-repo copy), transcribed statement by statement.
+   Go's aes.NewCipher(k) + block.Encrypt is the section variable E (key, 16-octet block -> 16 octets);
+   aes.NewCipher fails (error return) unless len(k) is 16, 24 or 32 -- the executable instance aes128
+   only covers 16.  Input slices are octet lists; an index or slice bound beyond the length is MPanic
+   (the harness passes slices whose capacity equals their length).  Output buffers are those the
+   exported API documents (mac_a/mac_s/res 8, ck/ik 16, ak/akstar/sqn 6, autn 16, auts 14 octets);
+   a nil output buffer just skips that output, so the model computes all of them. *)
+From Coq Require Import NArith ZArith List Bool.
+Require Import Bytes BytesLemmas.
 Import ListNotations.
 Open Scope N_scope.
+
+Inductive mres (A:Type) : Type := MOk (a:A) | MErr | MPanic.
+Arguments MOk {A} a.
+Arguments MErr {A}.
+Arguments MPanic {A}.
+
+Definition short (n:nat) (l:bytes) : bool := Nat.ltb (length l) n.
+(* aes.NewCipher: KeySizeError unless 16, 24, 32 *)
+Definition aes_key_bad (k:bytes) : bool :=
+  negb (Nat.eqb (length k) 16 || Nat.eqb (length k) 24 || Nat.eqb (length k) 32).
+
+(* for i := 0; i < 16; i++ { dst[(i+r)%16] = a[i] ^ b[i] }   -- every dst index is written exactly once *)
+Definition scatter (r:nat) (a b:bytes) : bytes :=
+  map (fun j:nat => let i := Nat.modulo (j + 16 - r) 16 in N.lxor (nth i a 0) (nth i b 0)) (seq 0 16).
+Definition xor16 (a b:bytes) : bytes := scatter 0 a b.       (* for i < 16 { dst[i] = a[i] ^ b[i] } *)
+Definition set_last_xor (l:bytes) (c:N) : bytes :=          (* tmp1[15] ^= c *)
+  firstn 15 l ++ [N.lxor (nth 15 l 0) c].
+
+(* os_memcmp as coded after commit 020149a: -1 / 1 at the first differing index, 0 if none below num;
+   None = index out of range *)
+Fixpoint os_memcmp (a b:bytes) (num:nat) : option Z :=
+  match num with
+  | O => Some 0%Z
+  | S n => match a, b with
+           | x::a', y::b' => if x <? y then Some (-1)%Z else if y <? x then Some 1%Z else os_memcmp a' b' n
+           | _, _ => None
+           end
+  end.
+
+Record f2345 := { m_res : bytes; m_ck : bytes; m_ik : bytes; m_ak : bytes; m_aks : bytes }.
 
 Section Model.
 Variable E : bytes -> bytes -> bytes.
 
-(* for i := 0; i < 16; i++ { dst[(i+r)%16] = a[i] ^ b[i] } *)
-Definition scatter (r:nat) (a b:bytes) : bytes :=
-  map (fun j:nat => let i := Nat.modulo (j + 16 - r) 16 in N.lxor (nth i a 0) (nth i b 0)) (seq 0 16).
-Definition xor16 (a b:bytes) : bytes := scatter 0 a b.
-Definition set_last_xor (l:bytes) (c:N) : bytes :=        (* tmp1[15] ^= c *)
-  firstn 15 l ++ [N.lxor (nth 15 l 0) c].
-
-Definition milenageF1 (opc k rand sqn amf:bytes) : bytes * bytes :=   (* (mac_a, mac_s) *)
-  let rin := xor16 rand opc in
+(* body of milenageF1 once the index checks have passed: (mac_a, mac_s) *)
+Definition f1_core (opc k rand sqn amf:bytes) : bytes * bytes :=
+  let rin := xor16 rand opc in                       (* rijndaelInput[i] = _rand[i] ^ opc[i] *)
   let tmp1 := E k rin in
   let tmp2 := firstn 6 sqn ++ firstn 2 amf ++ firstn 6 sqn ++ firstn 2 amf in   (* copy(tmp2[8:], tmp2[0:8]) *)
-  let tmp3 := scatter 8 tmp2 opc in
-  let tmp3 := xor16 tmp3 tmp1 in
-  let out := xor16 (E k tmp3) opc in
+  let tmp3 := scatter 8 tmp2 opc in                  (* tmp3[(i+8)%16] = tmp2[i] ^ opc[i] *)
+  let tmp3 := xor16 tmp3 tmp1 in                     (* tmp3[i] ^= tmp1[i] *)
+  let out := xor16 (E k tmp3) opc in                 (* tmp1[i] ^= opc[i] *)
   (firstn 8 out, skipn 8 out).
 
-Record f2345 := { m_res : bytes; m_ck : bytes; m_ik : bytes; m_ak : bytes; m_aks : bytes }.
-Definition milenageF2345 (opc k rand:bytes) : f2345 :=
+Definition milenageF1 (opc k rand sqn amf:bytes) : mres (bytes * bytes) :=
+  if short 16 rand || short 16 opc then MPanic       (* _rand[i] ^ opc[i] *)
+  else if aes_key_bad k then MErr                    (* return err *)
+  else if short 6 sqn || short 2 amf then MPanic     (* sqn[0:6], amf[0:2] *)
+  else MOk (f1_core opc k rand sqn amf).
+
+Definition f2345_core (opc k rand:bytes) : f2345 :=
   let tmp2 := E k (xor16 rand opc) in
   let t := set_last_xor (xor16 tmp2 opc) 1 in
   let tmp3 := xor16 (E k t) opc in
   let ck := xor16 (E k (set_last_xor (scatter 12 tmp2 opc) 2)) opc in
   let ik := xor16 (E k (set_last_xor (scatter 8 tmp2 opc) 4)) opc in
   let a5 := E k (set_last_xor (scatter 4 tmp2 opc) 8) in
-  {| m_res := skipn 8 tmp3; m_ak := firstn 6 tmp3; m_ck := ck; m_ik := ik; m_aks := firstn 6 (xor16 a5 opc) |}.
+  {| m_res := skipn 8 tmp3; m_ak := firstn 6 tmp3; m_ck := ck; m_ik := ik;
+     m_aks := firstn 6 (xor16 a5 opc) |}.            (* for i < 6 { akstar[i] = tmp1[i] ^ opc[i] } *)
 
-Definition GenerateOPC (k op:bytes) : bytes := xor16 (E k op) op.
+Definition milenageF2345 (opc k rand:bytes) : mres f2345 :=
+  if short 16 rand || short 16 opc then MPanic
+  else if aes_key_bad k then MErr
+  else MOk (f2345_core opc k rand).
 
-(* os_memcmp as written: returns -i / i at the first difference (so 0 when it is at index 0) *)
-Fixpoint os_memcmp_from (i:nat) (a b:bytes) (num:nat) : Z :=
-  match num with O => 0%Z | S n =>
-    match a, b with
-    | x::a', y::b' => if x <? y then (- Z.of_nat i)%Z else if y <? x then Z.of_nat i else os_memcmp_from (S i) a' b' n
-    | _, _ => 0%Z end end.
-Definition os_memcmp a b num := os_memcmp_from 0 a b num.
+(* exported wrappers *)
+Definition F1 := milenageF1.
+Definition F2345 := milenageF2345.
 
-(* Milenage_check: 0 ok (res ck ik), -1 MAC failure, -2 resync (auts) *)
-Inductive check_result := CheckOk (res ck ik:bytes) | CheckMacFail | CheckResync (auts:bytes).
+(* GenerateOPC: block.Encrypt(opc, op) panics on a short op and uses op[:16] of a longer one *)
+Definition GenerateOPC (k op:bytes) : mres bytes :=
+  if aes_key_bad k then MErr
+  else if short 16 op then MPanic
+  else MOk (xor16 (E k (firstn 16 op)) op).
+
+(* MilenageGenerate(opc, amf, k, sqn, _rand, autn, ik, ck, ak, res, &res_len):
+   GenFail = *res_len set to 0 and no buffer written *)
+Inductive gen_result := GenPanic | GenFail | GenOk (autn ik ck ak res:bytes).
+Definition MilenageGenerate (opc amf k sqn rand:bytes) (res_len:N) : gen_result :=
+  if res_len <? 8 then GenFail else
+  match milenageF1 opc k rand sqn amf with
+  | MPanic => GenPanic
+  | MErr => GenFail
+  | MOk (mac_a, _) =>
+    match milenageF2345 opc k rand with
+    | MPanic => GenPanic
+    | MErr => GenFail
+    | MOk r =>       (* autn[i] = sqn[i] ^ ak[i] (i<6); copy(autn[6:], amf[0:2]); copy(autn[8:], mac_a) *)
+      GenOk (xor_bytes (firstn 6 sqn) (m_ak r) ++ firstn 2 amf ++ mac_a) (m_ik r) (m_ck r) (m_ak r) (m_res r)
+    end
+  end.
+
+(* Milenage_check(opc, k, sqn, _rand, autn, ik, ck, res, &res_len, auts):
+   CheckErr = -1 before anything is written; CheckRet rc res ck ik auts: res/ck/ik are written by the
+   first milenageF2345 call whatever the return code is, *res_len = 8, auts is written only on -2 *)
+Inductive check_result := CheckPanic | CheckErr | CheckRet (rc:Z) (res ck ik:bytes) (auts:option bytes).
 Definition Milenage_check (opc k sqn rand autn:bytes) : check_result :=
-  let r := milenageF2345 opc k rand in
-  let rx_sqn := map (fun p => N.lxor (fst p) (snd p)) (combine (firstn 6 autn) (m_ak r)) in
-  if (os_memcmp rx_sqn sqn 6 <=? 0)%Z then
-    let aks := m_aks r in
-    let auts0 := map (fun p => N.lxor (fst p) (snd p)) (combine (firstn 6 sqn) aks) in
-    CheckResync (auts0 ++ snd (milenageF1 opc k rand sqn [0;0]))
-  else
-    let amf := skipn 6 autn in
-    let mac_a := fst (milenageF1 opc k rand rx_sqn amf) in
-    if (os_memcmp mac_a (skipn 8 autn) 8 =? 0)%Z then CheckOk (m_res r) (m_ck r) (m_ik r) else CheckMacFail.
+  match milenageF2345 opc k rand with
+  | MPanic => CheckPanic
+  | MErr => CheckErr
+  | MOk r =>
+    if short 6 autn then CheckPanic else
+    let rx_sqn := xor_bytes (firstn 6 autn) (m_ak r) in            (* rx_sqn[i] = autn[i] ^ ak[i] *)
+    match os_memcmp rx_sqn sqn 6 with
+    | None => CheckPanic
+    | Some c =>
+      if (c <=? 0)%Z then
+        if short 6 sqn then CheckPanic else
+        let auts0 := xor_bytes (firstn 6 sqn) (m_aks r) in         (* auts[i] = sqn[i] ^ ak[i] with ak = f5* *)
+        match milenageF1 opc k rand sqn [0;0] with
+        | MOk (_, mac_s) => CheckRet (-2) (m_res r) (m_ck r) (m_ik r) (Some (auts0 ++ mac_s))
+        | MErr => CheckRet (-1) (m_res r) (m_ck r) (m_ik r) (Some auts0)
+        | MPanic => CheckPanic
+        end
+      else
+        let amf := skipn 6 autn in                                  (* amf = autn[6:] *)
+        match milenageF1 opc k rand rx_sqn amf with
+        | MOk (mac_a, _) =>
+          match os_memcmp mac_a (skipn 8 autn) 8 with
+          | None => CheckPanic
+          | Some d => CheckRet (if (d =? 0)%Z then 0 else -1) (m_res r) (m_ck r) (m_ik r) None
+          end
+        | MErr => CheckRet (-1) (m_res r) (m_ck r) (m_ik r) None
+        | MPanic => CheckPanic
+        end
+    end
+  end.
+
+(* Milenage_auts(opc, k, _rand, auts, sqn): AutsErr = -1 with sqn untouched; AutsRet rc sqn: the sqn
+   buffer is written before MAC-S is compared, so it is filled on -1 too *)
+Inductive auts_result := AutsPanic | AutsErr | AutsRet (rc:Z) (sqn:bytes).
+Definition Milenage_auts (opc k rand auts:bytes) : auts_result :=
+  match milenageF2345 opc k rand with
+  | MPanic => AutsPanic
+  | MErr => AutsErr
+  | MOk r =>
+    if short 6 auts then AutsPanic else
+    let sqn := xor_bytes (firstn 6 auts) (m_aks r) in               (* sqn[i] = auts[i] ^ ak[i] *)
+    match milenageF1 opc k rand sqn [0;0] with
+    | MOk (_, mac_s) =>
+      if short 14 auts then AutsPanic                               (* auts[6:14] *)
+      else AutsRet (if bytes_eqb mac_s (firstn 8 (skipn 6 auts)) then 0 else -1) sqn   (* reflect.DeepEqual *)
+    | MErr => AutsRet (-1) sqn
+    | MPanic => AutsPanic
+    end
+  end.
 End Model.
